@@ -18,11 +18,11 @@ theorem hGet_hSet (k k' v : Str) (h : Headers) :
     · by_cases h2 : norm k = norm k'
       · simp [hSet, hGet, h1, h2]
       · have : ¬ norm k = norm a := fun e => h2 (e.trans h1.symm)
-        simp [hSet, hGet, h1, h2, this]
+        simp [hSet, hGet, h1, this]
     · by_cases h2 : norm k = norm a
       · have : ¬ norm k = norm k' := fun e => h1 (e.symm.trans h2)
         have h3 : ¬ norm a = norm k' := fun e => h1 e.symm
-        simp [hSet, hGet, h1, h2, this, h3]
+        simp [hSet, hGet, h1, h2, h3]
       · simp [hSet, hGet, h1, h2, ih]
 
 theorem hGet_hSetDefault (k k' v : Str) (h : Headers) :
